@@ -48,7 +48,7 @@ def written_keys(funcs, docvars=("_yaml_doc", "yaml_doc")):
     return out
 
 
-def _table_strings(f, name):
+def _table_strings(f, name, _depth=0):
     """string constants in the values of the module-level literal table (dict / tuple of rows) from which the local `name` is taken in f (`a, b = TABLE[key]`,
     `for a, b in TABLE`): the keys a table-driven reader may ask for"""
     out = set()
@@ -69,6 +69,8 @@ def _table_strings(f, name):
                 lit = tables[x.id]
                 vals = lit.values if isinstance(lit, ast.Dict) else lit.elts
                 out |= {c.value for v in vals for c in ast.walk(v) if isinstance(c, ast.Constant) and isinstance(c.value, str)}
+            elif isinstance(x, ast.Name) and x.id != name and _depth < 2:
+                out |= _table_strings(f, x.id, _depth + 1)   # (the row was taken into a local first: `row = TABLE.get(k)`; `a, b = row`)
     return out
 
 
@@ -286,16 +288,30 @@ def run(eng, R):
         used |= {common.const_str(n.slice) for n in ast.walk(xc.node) if isinstance(n, ast.Subscript) and isinstance(n.value, ast.Name) and n.value.id == "_err_dict" and common.const_str(n.slice)}
         wsrc = ast.unparse(we.node)
         rsrc = ast.unparse(helpers_r[0].node)
+        # the writer's name for one source dictionary (loop over `<container>._error_dicts.items()`), the reader's name for one specification (`<spec>.get('type', ..)`)
+        wd = next((l.target.elts[1].id for l in ast.walk(we.node) if isinstance(l, ast.For) and isinstance(l.target, ast.Tuple) and len(l.target.elts) == 2
+                   and isinstance(l.target.elts[1], ast.Name) and "_error_dicts.items()" in ast.unparse(l.iter)), "_err_dict")
+        rd = next((c.func.value.id for c in ast.walk(helpers_r[0].node) if isinstance(c, ast.Call) and isinstance(c.func, ast.Attribute) and c.func.attr == "get"
+                   and isinstance(c.func.value, ast.Name) and c.args and common.const_str(c.args[0]) == "type"), "_err")
+        # the dictionaries written per source: `section.append(dict(..))`, or a local `rec = dict(..)` that is appended
+        pm = common.parents_of(we.node)
+        appended_names = {c.args[0].id for c in ast.walk(we.node) if isinstance(c, ast.Call) and isinstance(c.func, ast.Attribute) and c.func.attr == "append" and c.args and isinstance(c.args[0], ast.Name)}
+        entry_dicts = []
+        for n in ast.walk(we.node):
+            if isinstance(n, ast.Call) and isinstance(n.func, ast.Name) and n.func.id == "dict" and n.keywords:
+                par = pm.get(id(n))
+                if isinstance(par, ast.Call) and getattr(par.func, "attr", "") == "append":
+                    entry_dicts.append(n)
+                elif isinstance(par, ast.Assign) and len(par.targets) == 1 and isinstance(par.targets[0], ast.Name) and par.targets[0].id in appended_names:
+                    entry_dicts.append(n)
         for k in sorted(used):
             if k == "err":
-                ok = "_err_dict['err']" in wsrc
+                ok = ("%s['err']" % wd) in wsrc
             elif k == "axis":
-                ok = "_err_dict.get('axis'" in wsrc and "axis" in rsrc
+                ok = ("%s.get('axis'" % wd) in wsrc and "axis" in rsrc
             else:
-                entry_dicts = [n for n in ast.walk(we.node) if isinstance(n, ast.Call) and isinstance(n.func, ast.Name) and n.func.id == "dict" and n.keywords
-                               and isinstance(common.parents_of(we.node).get(id(n)), ast.Call) and getattr(common.parents_of(we.node).get(id(n)).func, "attr", "") == "append"]
-                ok = bool(entry_dicts) and all(any(kw.arg == k and ("_err_dict['%s']" % k) in ast.unparse(kw.value).replace('"', "'") for kw in d.keywords) for d in entry_dicts) \
-                    and ("_err.get('%s'" % k) in rsrc.replace('"', "'")
+                ok = bool(entry_dicts) and all(any(kw.arg == k and ("%s['%s']" % (wd, k)) in ast.unparse(kw.value).replace('"', "'") for kw in d.keywords) for d in entry_dicts) \
+                    and ("%s.get('%s'" % (rd, k)) in rsrc.replace('"', "'")
             R.ob("E5", "source state:%s" % k, ok, (we.file, we.lineno), "the per-source state '%s' (used by the total uncertainty) is not written and restored: a reloaded container has a different total covariance" % k)
         if "enabled" in used:
             R.ob("E5", "source state:enabled applied", "disable_error" in rsrc, (helpers_r[0].file, helpers_r[0].lineno), "process_error_sources reads 'enabled' but never disables the source")
